@@ -1,0 +1,82 @@
+//go:build verif
+
+// Contracts for package env, read by /verif's VC generator (govc). Comment-only:
+// this file adds no code and is compiled only with -tags verif.
+package env
+
+//@ spec rec validEnv(e *Env) bool = e != nil && e.mu != nil && e.data != nil && (e.outer == nil || validEnv(e.outer))
+//@ spec validEnvVal(v types.EnvType) bool = is(v, *Env) && validEnv(v.(*Env))
+
+// Lookup through the scope chain as an uninterpreted function of the ghost "scope
+// world" envW: every call that may bind or remove a name havocs envW; lookups do not.
+//@ spec abstract lookupV(w int, e *Env, k string) types.MalType
+//@ spec abstract lookupOK(w int, e *Env, k string) bool
+
+//@ func _newEnv() (r)
+//@   panics never
+//@   ensures fresh(r) && validEnv(r) && r.outer == nil && len(r.data) == 0
+
+//@ func _newSubordinateEnv(outer) (r)
+//@   requires outer == nil || validEnv(outer)
+//@   panics never
+//@   ensures fresh(r) && validEnv(r) && r.outer == outer && len(r.data) == 0
+
+//@ func NewEnv() (r)
+//@   panics never
+//@   ensures validEnvVal(r)
+
+//@ func NewSubordinateEnv(outer) (r)
+//@   requires validEnvVal(outer)
+//@   panics never
+//@   ensures validEnvVal(r) && fresh(r.(*Env)) && r.(*Env).outer == outer.(*Env)
+
+//@ func NewSubordinateEnvWithBinds(outer, binds, exprs) (r, err)
+//@   requires validEnvVal(outer)
+//@   panics never
+//@   ensures err != nil || (validEnvVal(r) && fresh(r.(*Env)) && r.(*Env).outer == outer.(*Env))
+
+//@ func _newSubordinateEnvWithBinds(outer, binds, exprs) (r, err)
+//@   requires outer == nil || validEnv(outer)
+//@   panics never
+//@   ensures err != nil || (validEnvVal(r) && fresh(r.(*Env)) && r.(*Env).outer == outer)
+
+//@ func (*Env).Find(e, key) (r)
+//@   requires validEnv(e)
+//@   panics never
+//@   assigns nothing
+//@   ensures r == nil || validEnvVal(r)
+
+//@ func (*Env).FindNT(e, key) (r)
+//@   requires validEnv(e)
+//@   panics never
+//@   assigns nothing
+//@   ensures r == nil || validEnvVal(r)
+
+//@ func (*Env).Get(e, key) (v, err)
+//@   requires validEnv(e)
+//@   panics never
+//@   assigns nothing
+//@   ensures v == lookupV(ghost(envW), e, key.Val) && (err == nil) == lookupOK(ghost(envW), e, key.Val) @assume
+
+//@ func (*Env).GetNT(e, key) (v, err)
+//@   requires validEnv(e)
+//@   panics never
+//@   assigns nothing
+
+//@ func (*Env).Set(e, key, value) (r)
+//@   requires validEnv(e)
+//@   panics never
+//@   ensures r == value
+
+//@ func (*Env).SetNT(e, key, value) (r)
+//@   requires validEnv(e)
+//@   panics never
+//@   ensures r == value
+
+//@ func (*Env).Remove(e, key) (err)
+//@   requires validEnv(e)
+//@   panics never
+
+//@ func (*Env).RemoveNT(e, key) (err)
+//@   requires validEnv(e)
+//@   panics never
